@@ -288,6 +288,7 @@ var (
 	ErrInvalidTicketLength      = stderrors.New("ticket must be between 1 and 65535 bytes")
 
 	ErrInvalidPacketLength        = stderrors.New("packet length and declared length do not match")
+	ErrRecordTooLong              = stderrors.New("record content must not be longer than 65535 bytes")
 	ErrInvalidCiphertextHeader    = stderrors.New("invalid dtls 1.3 ciphertext header")
 	ErrInvalidEpoch               = stderrors.New("invalid epoch")
 	ErrCIDTooBig                  = stderrors.New("connection ID size is too big")
